@@ -158,37 +158,37 @@ func mkField(base *Term, name string) *Term {
 
 // pureCallees: calls whose result depends only on their arguments (no call-site identity needed).
 var pureCallees = map[string]bool{
-	"sdk/types.AccAddressFromBech32":        true,
-	"sdk/types.UnwrapSDKContext":            true,
-	"(sdk/types.Context).BlockTime":         true,
-	"(sdk/types.Context).KVStore":           true,
-	"(sdk/types.Context).EventManager":      true,
-	"(sdk/types.Context).Logger":            true,
-	"(time.Time).UnixNano":                  true,
-	"(time.Time).IsZero":                    true,
-	"(sdk/types.AccAddress).String":         true,
-	"(sdk/types.AccAddress).Bytes":          true,
-	"(sdk/types.AccAddress).Empty":          true,
-	"sdk/types.Uint64ToBigEndian":           true,
-	"sdk/types.BigEndianToUint64":           true,
-	"sdk/types.VerifyAddressFormat":         true,
-	"sdk/store/prefix.NewStore":             true,
-	"strconv.FormatUint":                    true,
-	"strconv.ParseUint":                     true,
-	"fmt.Sprintf":                           true,
-	"strings.HasPrefix":                     true,
-	"strings.Contains":                      true,
-	"strings.Split":                         true,
-	"regexp.MatchString":                    true,
-	"regexp.MustCompile":                    true,
-	"(*regexp.Regexp).MatchString":          true,
-	"(*encoding/base64.Encoding).DecodeString": true,
+	"sdk/types.AccAddressFromBech32":            true,
+	"sdk/types.UnwrapSDKContext":                true,
+	"(sdk/types.Context).BlockTime":             true,
+	"(sdk/types.Context).KVStore":               true,
+	"(sdk/types.Context).EventManager":          true,
+	"(sdk/types.Context).Logger":                true,
+	"(time.Time).UnixNano":                      true,
+	"(time.Time).IsZero":                        true,
+	"(sdk/types.AccAddress).String":             true,
+	"(sdk/types.AccAddress).Bytes":              true,
+	"(sdk/types.AccAddress).Empty":              true,
+	"sdk/types.Uint64ToBigEndian":               true,
+	"sdk/types.BigEndianToUint64":               true,
+	"sdk/types.VerifyAddressFormat":             true,
+	"sdk/store/prefix.NewStore":                 true,
+	"strconv.FormatUint":                        true,
+	"strconv.ParseUint":                         true,
+	"fmt.Sprintf":                               true,
+	"strings.HasPrefix":                         true,
+	"strings.Contains":                          true,
+	"strings.Split":                             true,
+	"regexp.MatchString":                        true,
+	"regexp.MustCompile":                        true,
+	"(*regexp.Regexp).MatchString":              true,
+	"(*encoding/base64.Encoding).DecodeString":  true,
 	"github.com/btcsuite/btcutil/base58.Decode": true,
-	"sdk/types.MustSortJSON":                true,
-	"sdk/codec/types.NewAnyWithValue":       true,
-	"(*sdk/codec/types.Any).GetValue":       true,
-	"sdk/types.NewCoins":                    true,
-	"sdk/types.KVStorePrefixIterator":       false,
+	"sdk/types.MustSortJSON":                    true,
+	"sdk/codec/types.NewAnyWithValue":           true,
+	"(*sdk/codec/types.Any).GetValue":           true,
+	"sdk/types.NewCoins":                        true,
+	"sdk/types.KVStorePrefixIterator":           false,
 }
 
 // readOnlyCallee: callees known not to write through a pointer argument (they only read the pointee).
